@@ -460,3 +460,66 @@ class active:
 
     def __exit__(self, *a):
         ACTIVE[0] = self.prev
+
+
+# --------------------------------------------------------------- sparse containers
+class SymDense(_np.ndarray):
+    """Dense object-array stand-in for a scipy sparse array built from symbolic
+    data (assumed contract of scipy's COO constructor: duplicates are summed)."""
+
+    def toarray(self, *a, **k):
+        return _np.asarray(self).view(_np.ndarray)
+
+    def todense(self):
+        return self.toarray()
+
+    def tocoo(self, copy=False):
+        return self
+
+    tocsr = tocsc = tocoo
+
+    def asformat(self, format, copy=False):
+        return self
+
+    def diagonal(self, *a, **k):
+        return _np.asarray(self).view(_np.ndarray).diagonal(*a, **k)
+
+
+class _SymData(list):
+    typecode = "d"
+
+
+def _array_shim(typecode, init=()):
+    from array import array as _array
+
+    if ACTIVE[0] and typecode == "d":
+        return _SymData(init)
+    return _array(typecode, init)
+
+
+def _sparse_shim(real):
+    def make(arg1, shape=None, copy=False, **kw):
+        if ACTIVE[0] and isinstance(arg1, tuple) and len(arg1) == 2 and isinstance(arg1[0], _SymData):
+            data, (row, col) = arg1
+            dense = _fill(tuple(shape), S.ZERO)
+            for v, i, j in zip(data, row, col):
+                dense[i, j] = dense[i, j] + v
+            return dense.view(SymDense)
+        return real(arg1, shape=shape, copy=copy, **kw)
+
+    make.__name__ = getattr(real, "__name__", "sparse")
+    make._real = real
+    return make
+
+
+def install_sparse():
+    """Rebind `array`, coo/csc/csr_array inside cardillo.utility.coo_matrix."""
+    import cardillo.utility.coo_matrix as cm
+    import scipy.sparse as sp
+
+    if getattr(cm, "_vk_sparse", False):
+        return
+    cm.array = _array_shim
+    for nm in ("coo_array", "csc_array", "csr_array"):
+        setattr(cm, nm, _sparse_shim(getattr(sp, nm)))
+    cm._vk_sparse = True
